@@ -108,6 +108,9 @@ func ReadDataType(source io.Reader, version primitive.ProtocolVersion) (decoded 
 			return Uuid, nil
 		case primitive.DataTypeCodeVarchar:
 			return Varchar, nil
+		case primitive.DataTypeCodeText:
+			// type option 0x000A of protocol v2, an alias for varchar
+			return Varchar, nil
 		case primitive.DataTypeCodeVarint:
 			return Varint, nil
 		case primitive.DataTypeCodeTimeuuid:
